@@ -383,6 +383,8 @@ def c08(ck):
     mc = tlc("MC_IntState", cfg="MC_IntState_deep" if thorough else "MC_IntState", workers=8, coverage=True, timeout=3000)
     ck.add_tlc("MC_IntState", mc)
     ck.require_coverage(mc, ["Instr", "Tick"])
+    mm = tlc("MC_Machine", cfg="MC_Machine_deep" if thorough else "MC_Machine", workers=6, timeout=3000)
+    ck.add_tlc("MC_Machine", mm)       # SampledLaw / HaltLaw / StackLaw on the whole machine with asynchronous joypad input
     scs = gbprog.c08_all(5 if thorough else 4, rng) + gbprog.c08_random(6000 if thorough else 400, 24, rng)
     ck.extra["sequences"] = len(scs)
     ck.sample({k: scs[777][k] for k in ("id", "rom", "cpu", "ime", "init_writes", "steps")})
@@ -403,6 +405,9 @@ def c09(ck):
     mc = tlc("MC_Clock", workers=6, coverage=True, timeout=1800)
     ck.add_tlc("MC_Clock", mc)
     ck.require_coverage(mc, ["Step", "Halted"])
+    # the whole machine against a button-pressing environment: time conservation as a system-level invariant
+    mm = tlc("MC_Machine", cfg="MC_Machine_deep" if thorough else "MC_Machine", workers=6, timeout=3000)
+    ck.add_tlc("MC_Machine", mm)
     n = 4000 if thorough else 500
     scs = gbprog.c08_all(3, rng) + gbprog.c08_random(n, 30, rng) + gbprog.structured_programs(n // 4, rng)
     for i, s in enumerate(scs):
